@@ -420,10 +420,13 @@ def run(ctx):
     # ... and the bytes handed to the pipe are the chunk the network delivered, whole: no per-chunk strip / slice /
     # split before push_bytes (a BOM stripped from the first chunk only is decoded differently when the network
     # splits inside it)
-    sreq = P.body('ripd::session::stream_openresponses_request')
-    pbs = sreq.calls(r'OpenResponsesSsePipe::<\'a>::push_bytes$|OpenResponsesSsePipe::push_bytes$|OpenResponsesSsePipe<.*>::push_bytes$')
-    ctx.floor('C15.6', 'push_bytes calls in stream_openresponses_request', len(pbs), 2)
+    P.body('ripd::session::stream_openresponses_request')
+    # wherever the session module feeds the pipe (the request function, or a body-pump helper extracted from it)
+    pbs = [s_ for p_, g_ in sorted(P.fns.items()) if p_.startswith('ripd::session::') and 'OpenResponsesSsePipe' not in p_
+           for s_ in g_.calls(r'OpenResponsesSsePipe::<\'a>::push_bytes$|OpenResponsesSsePipe::push_bytes$|OpenResponsesSsePipe<.*>::push_bytes$')]
+    ctx.floor('C15.6', 'push_bytes calls in the session module', len(pbs), 2)
     for pb in pbs:
+        sreq = pb.fn
         ch_ = str_chain(sreq, pb.args[-1])
         cut = [c_ for c_ in ch_ if re.search(r'::(strip_prefix|strip_suffix|trim\w*|split\w*|slice|split_off|split_to|advance|truncate|skip|drain|get|get_unchecked|index|to_ascii_\w+|replace\w*)$', c_.callee or '') and 'Try' not in (c_.callee or '')]
         ctx.touch(sreq)
